@@ -403,6 +403,20 @@ def check_tx(ctx, case):
         ctx.traces += 1
         if sorted(map(tuple, mf)) != sorted((bytes(w.vkey.payload).hex(), bytes(w.signature).hex()) for w in fake):
             ctx.diff("witness.fake", case, mf[:3], [(bytes(w.vkey.payload).hex(), bytes(w.signature).hex()) for w in fake][:3])
+    for o in sc["ops"]:
+        if o["op"] in ("native_script", "c10_native_script") or (isinstance(o.get("script"), list) and o["op"] != "withdraw"):
+            ctx.count("ns-depth:%d" % spec_depth(o["script"]))
+            for kind in ("all", "any", "nofk", "before", "after"):
+                if spec_has(o["script"], kind):
+                    ctx.count("ns-has:" + kind)
+    ctx.count("force:" + ("on" if force else "off"))
+    if len(labels) != len(sc["sign"]):
+        ctx.count("sign:duplicate-label")
+    if any(l.endswith("~") for l in labels):
+        ctx.count("sign:same-secret-other-class")
+    missing = [h for h in req if h not in {khash(l) for l in labels}]
+    if missing:
+        ctx.count("sign:some-required-key-not-supplied")
     ctx.count("witnesses:%d" % min(len(vkw), 9))
     ctx.count("required:%d" % min(len(req), 12))
     ctx.case(case, nontrivial=len(req) >= 2 or len(labels) >= 2)
